@@ -634,6 +634,8 @@ class NativeGvfRoundTrip(NativeCheck):
                             ln = rng.randint(5, 40)
                             frags.append(SeqFeature(chrom='G', attributes={}, location=FeatureLocation(seqname='G', start=pos, end=pos + ln), type='exon'))
                             pos += ln + rng.randint(1, 30)
+                        if rng.random() < 0.5:
+                            frags.reverse()          # minus-strand records list their fragments in descending gene order
                         m = CircRNAModel(tx, frags, [], f'CIRC-{tx}-{st_}:{pos}', 'G', 'SYM', f'chr1:{st_}:{pos}')
                         line = m.to_string()
                         back = cio.line_to_circ_model(line)
@@ -677,7 +679,7 @@ class NativeGvfRoundTrip(NativeCheck):
                     if got != want:
                         return dict(call=f'records of {tx} through the index (idx files: {inp["idx"]})', observed=str(got)[:400], expected=str(want)[:400],
                                     signature='index-differs-from-linear-scan')
-            # 3. stale index
+            # 3. stale index: the pair was accepted above (same process); after an edit it must be rejected
             if inp['idx']:
                 with open(paths[0], 'at') as fh:
                     fh.write(per_file[0][0][1] + '\n')
